@@ -419,6 +419,12 @@ def container_coherence(rep, idx, rule="C11.8"):
                 txt = ast.unparse(it.node)
                 if "reversed(" in txt or "sorted(" in txt:
                     wrong = "the names are reported in another order than the fields were declared"
+                if not ok and len(ys) == 1 and not ys[0][1] and any(fr[0] == 'for' and c.norm(c.t.loops[fr[1]].iter) in
+                                                                   (S, c.norm(('call', ('attr', S, 'keys'), (), ()))) for fr in ys[0][2]) and \
+                        any(fr[0] == 'pyif' for fr in ys[0][2]):
+                    conds = [ir.show(c.norm(fr[1]))[:60] for fr in ys[0][2] if fr[0] == 'pyif']
+                    wrong = (f"iteration skips the stored names for which `{' and '.join(conds)}` fails, while len() and [] keep them: "
+                             "flatten() and the register layout lose those fields")
                 rep.form(ok, rule, it.site, "iter(FieldActionMap) yields the declared names in declaration order",
                          f"yields {[ir.show(y[0])[:50] for y in ys]} returns {[ir.show(r)[:50] for r in rets]}", wrong=wrong)
             ga = cls.method("__getattr__")
